@@ -157,5 +157,5 @@ type Query {
 
 
 def w_schema(tier="quick"):
-    shapes = W_SHAPES_1 + W_SHAPES_2 + (W_SHAPES_3 if tier == "thorough" else [])
+    shapes = W_SHAPES_1 + W_SHAPES_2 + W_SHAPES_3
     return S.parse_sdl(w_sdl(shapes)), shapes
